@@ -93,6 +93,23 @@ def _work(args):
                 "backend": ob.backend,
                 "time_s": round(ob.time_s, 4),
             }
+            if ob.verdict == "unknown" and con.replay_ is not None and getattr(con, "replay_without_model", False):
+                # the solver could not decide: a model-free witness of the contract may still show a real failing input
+                path = os.path.join(REPLAY_DIR, pack.prop_id, f"{_safe(con.qualname)}__{n}.py")
+                try:
+                    code = con.replay_(None, ob.info.get("ctx"), ob)
+                except Exception:  # noqa: BLE001
+                    code = None
+                if code:
+                    header = (
+                        f"# replay for property {pack.prop_id}\n# function: {con.key} ({res.file}:{res.lines[0]}-{res.lines[1]})\n"
+                        f"# undischarged obligation: {ob.name}\n# solver: {ob.backend} answered unknown; the contract's witness input is run on the real code\n"
+                    )
+                    ok, outp = run_snippet(header + code, path)
+                    if ok:
+                        rec.update(verdict="refuted", backend=ob.backend + " unknown; failing input confirmed by replay", reproduced=True, replay=path, replay_output=outp[-1500:], model={})
+                out["obligations"].append(rec)
+                continue
             if ob.verdict == "refuted":
                 m = solve.M(ob.model, eng) if ob.model is not None else None
                 rec["model"] = m.describe(res.params) if m else {}
@@ -119,6 +136,9 @@ def _work(args):
                             f.write("# full model:\n" + "\n".join("# " + ln for ln in str(ob.model).splitlines()[:200]) + "\n")
                     rec["reproduced"] = False
                 rec["replay"] = path
+                if ob.info.get("candidate") and not rec.get("reproduced"):
+                    # an unconfirmed candidate model of a quantified query is not a refutation
+                    rec["verdict"] = "unknown"
             out["obligations"].append(rec)
         out["time_s"] = round(res.time_s + sum(o["time_s"] for o in out["obligations"]), 3)
         out["sample"] = _sample(res)
